@@ -60,15 +60,19 @@ def install_timedelta(interp):
 
 
 def make_timedelta(it, x):
-    n = z3.Int(fresh_name("us"))
-    s = z3.ToReal(n) / 1000000
+    """rounded value s of x: |s - x| <= 0.5us and rounding is monotone w.r.t. every other rounding on this path.
+    (Integrality of s in microseconds is deliberately not assumed: weaker assumption, linear real arithmetic only.)"""
+    s = z3.Real(fresh_name("td"))
     it.path.assume(z3.And(s - x <= z3.RealVal("1/2000000"), x - s <= z3.RealVal("1/2000000")))
+    lst = it.path.ghost.setdefault("td_list", [])
+    for (xi, si) in lst[-6:]:
+        it.path.assume(z3.And(z3.Implies(x >= xi, s >= si), z3.Implies(x <= xi, s <= si)))
+    lst.append((x, s))
     return TimeDelta(s)
 
 
 def fresh_timedelta(it, name="td"):
-    n = z3.Int(fresh_name(name + "_us"))
-    return TimeDelta(z3.ToReal(n) / 1000000)
+    return TimeDelta(z3.Real(fresh_name(name)))
 
 
 def install_math(interp):
